@@ -715,6 +715,7 @@ impl Program {
             })
             .collect();
         state.data_cursor = self.data_iterator.as_ref().map(|it| it.verif_cursor());
+        state.nesting_depth = self.nesting_depth;
         let mut functions = self
             .functions
             .iter()
